@@ -1167,9 +1167,9 @@ class HTMLDocument:
             and isinstance(content[0], Tag)
             and cast(Tag, content[0]).name == "html"
         ):
-            html = cast(Tag, content[0])
+            # Work on a (tagified) copy so that the user's <html> tag is not modified
+            html = cast(Tag, content[0]).tagify()
             html.attrs.update(**self._html_attr_args)
-            html = html.tagify()
             html = HTMLDocument._hoist_head_content(html, lib_prefix, include_version)
             return html
 
